@@ -13,6 +13,7 @@ CONSTANTS MaxLen,      \* longest abstract bit sequence
           Ops,         \* classes of calls issued: subset of {"mut","to","enable","reload","file","writer","mapper","clone"}
           Kinds,       \* kinds an object may have (restricts the conversions)
           InitKinds,   \* kinds of the initial (empty) object
+          IntWidths,   \* item widths of an initial integer vector
           Memory,      \* 1: the VIEW keeps the class of the previous call
           MaxDepth     \* longest history (bounds the random walks of -simulate; the cover needs no bound)
 
@@ -25,11 +26,13 @@ CallClass(s, c) == IF c.op = "resize" THEN <<c.op, Sign(c.n, Len(s.bits))>>
                    ELSE IF c.op = "to" THEN <<c.op, c.k>>
                    ELSE <<c.op>>
 
+\* values written: bits for a raw vector; for an integer vector 0, the largest item and a value wider than the item
+Vals(s) == IF s.kind = "int" THEN {0, 2^s.w - 1, 2^s.w + 1} ELSE {0, 1}      \* 2^w + 1 is stored as 1
 AllCalls(s) ==
-    {[op |-> "push", b |-> b] : b \in {0, 1}}
-    \cup {[op |-> "pop"], [op |-> "clear"], [op |-> "compl"]}
-    \cup {[op |-> "set", i |-> i, b |-> b] : i \in 0..(Len(s.bits) - 1), b \in {0, 1}}
-    \cup {[op |-> "resize", n |-> n, b |-> b] : n \in 0..MaxLen, b \in {0, 1}}
+    {[op |-> "push", b |-> b] : b \in Vals(s)}
+    \cup {[op |-> "pop"], [op |-> "clear"], [op |-> "compl"], [op |-> "pack"]}
+    \cup {[op |-> "set", i |-> i, b |-> b] : i \in 0..(Len(s.bits) - 1), b \in Vals(s)}
+    \cup {[op |-> "resize", n |-> n, b |-> b] : n \in 0..MaxLen, b \in Vals(s)}
     \cup {[op |-> "to", k |-> k] : k \in Kinds}
     \cup {[op |-> "enable", s |-> x] : x \in Supports \cup {"pred_succ"}}
     \cup {[op |-> "reload"], [op |-> "file"], [op |-> "writer"], [op |-> "mapper"], [op |-> "clone"]}
@@ -37,12 +40,15 @@ AllCalls(s) ==
 Calls(s) == {c \in AllCalls(s) : /\ OpClass(c) \in Ops
                                  /\ Enabled(s, c)
                                  /\ (c.op = "push" => Len(s.bits) < MaxLen)
+                                 \* a raw vector made from a wider integer vector is longer than MaxLen: it is only shortened, not rewritten
+                                 /\ (c.op \in {"set", "compl"} /\ s.kind = "raw" => Len(s.bits) <= MaxLen)
                                  /\ (c.op = "enable" /\ s.kind # "plain" => c.s = "rank")}   \* a no-op there: once is enough
 
-Entry(c, n) == [c |-> c, kind |-> n.kind, bits |-> n.bits, flags |-> Flags(n)]
+Entry(c, n) == [c |-> c, kind |-> n.kind, bits |-> n.bits, w |-> n.w, flags |-> Flags(n)]
 
 Init == /\ hist = << >> /\ last = << >>
-        /\ \E k \in InitKinds : o = NewObj(k) /\ init = k
+        /\ \/ \E k \in InitKinds \ {"int"} : o = NewObj(k) /\ init = [kind |-> k, w |-> 0]
+           \/ "int" \in InitKinds /\ \E w \in IntWidths : o = NewInt(w) /\ init = [kind |-> "int", w |-> w]
 
 Next == /\ Len(hist) < MaxDepth
         /\ \E c \in Calls(o) :
